@@ -39,7 +39,7 @@ pub fn run_case(c: &Value) -> CaseResult {
         "hasher_hist" | "hasher_all" => hasher::run(c),
         "sdd_prog" => sdd::run(c),
         "lat_eu" | "lat_real" | "lat_bool" | "lat_rational" | "lat_complex" => lattice::run(c),
-        "compile_expr" | "compile_cnf" | "compile_sdd" => compile::run(c),
+        "compile_expr" | "compile_cnf" | "compile_sdd" | "compile_wide" => compile::run(c),
         _ => Err(format!("unknown case kind {kind}")),
     });
     match r {
